@@ -40,8 +40,9 @@ ALL_VERDICTS = c29.ALL_VERDICTS + ["outside-subset-accept", "outside-subset-reje
 
 
 def run(ctx):
-    bindir = runner.cargo_build(["gql_tools"])
-    tool = os.path.join(bindir, "gql_tools")
+    tool = os.environ.get("VERIF_GQL_TOOL")     # validation aid: a gql_tools built from a mutated copy of /repo
+    if not tool:
+        tool = os.path.join(runner.cargo_build(["gql_tools"]), "gql_tools")
     gc.TOOL = tool
     n = ctx.pick(10_000, 500_000)
     jobs_plan = [("iso-base", "iso-schema", n), ("iso-ext", "iso-extension", n)]
